@@ -33,16 +33,16 @@ Notation tr := (track overflow_checks call_function transform formatter rules cu
 Notation ga := (get_arguments overflow_checks call_function transform formatter rules custom_as_string
                   unescape_write unescape_to_string f64_from_str b args).
 
-Lemma pw_S f p sc :
-  pw (S f) p sc =
-  pattern_loop overflow_checks transform b (mt f p) (length (pattern_elements p)) (pattern_elements p) sc.
+Lemma pw_S f k p sc :
+  pw (S f) k p sc =
+  pattern_loop overflow_checks transform b (mt f k p) (length (pattern_elements p)) (pattern_elements p) sc.
 Proof. reflexivity. Qed.
 
-Lemma pr_S f p sc :
-  pr (S f) p sc =
+Lemma pr_S f k p sc :
+  pr (S f) k p sc =
   match pattern_elements p with
   | [TextElement value] => Done (VString (apply_transform transform value), sc)
-  | _ => let* (o, sc) := pw f p sc in Done (VString (flatten o), sc)
+  | _ => let* (o, sc) := pw f k p sc in Done (VString (flatten o), sc)
   end.
 Proof. reflexivity. Qed.
 
@@ -58,10 +58,10 @@ Lemma ew_S_select f selector variants sc :
     | _ => Done (None, sc)
     end in
   match hit with
-  | Some value => pw f value sc
+  | Some value => pw f None value sc
   | None =>
       match find_default variants with
-      | Some value => pw f value sc
+      | Some value => pw f None value sc
       | None => Done ([], add_error sc MissingDefault)
       end
   end.
@@ -82,12 +82,12 @@ Lemma iw_S_message f id attribute sc :
       match attribute with
       | Some attr =>
           match find_attribute attributes attr with
-          | Some v => tr f v (MessageReference id attribute) sc
+          | Some v => tr f (PKey false id (Some attr)) v (MessageReference id attribute) sc
           | None => write_ref_error (MessageReference id attribute) sc
           end
       | None =>
           match value with
-          | Some v => tr f v (MessageReference id attribute) sc
+          | Some v => tr f (PKey false id None) v (MessageReference id attribute) sc
           | None => Done (braced (inline_write_error (MessageReference id attribute)), add_error sc (NoValue id))
           end
       end
@@ -101,10 +101,10 @@ Definition term_body (f : nat) (id : bytes) (attribute : option bytes) (exp : in
       match attribute with
       | Some attr =>
           match find_attribute attributes attr with
-          | Some v => tr f v exp sc
+          | Some v => tr f (PKey true id (Some attr)) v exp sc
           | None => write_ref_error exp sc
           end
-      | None => tr f value exp sc
+      | None => tr f (PKey true id None) value exp sc
       end
   | None => write_ref_error exp sc
   end.
@@ -210,20 +210,20 @@ Proof. reflexivity. Qed.
 Lemma ir_S_placeable f e sc : ir (S f) (Placeable e) sc = resolve_by_write f (Placeable e) sc.
 Proof. reflexivity. Qed.
 
-Lemma mt_S f p e sc :
-  mt (S f) p e sc =
-  let sc := match sc_travelled sc with [] => set_travelled sc [p] | _ => sc end in
+Lemma mt_S f k p e sc :
+  mt (S f) k p e sc =
+  let sc := match sc_travelled sc with [] => set_travelled sc [k] | _ => sc end in
   let* (o, sc) := ew f e sc in
   if sc_dirty sc then Done (o ++ braced (expression_write_error e), sc) else Done (o, sc).
 Proof. reflexivity. Qed.
 
-Lemma tr_S f p exp sc :
-  tr (S f) p exp sc =
-  if pattern_mem p (sc_travelled sc)
+Lemma tr_S f k p exp sc :
+  tr (S f) k p exp sc =
+  if key_mem k (sc_travelled sc)
   then Done (braced (inline_write_error exp), add_error sc Cyclic)
   else
-    let sc := set_travelled sc (p :: sc_travelled sc) in
-    let* (o, sc) := pw f p sc in
+    let sc := set_travelled sc (Some k :: sc_travelled sc) in
+    let* (o, sc) := pw f (Some k) p sc in
     Done (o, set_travelled sc (tl (sc_travelled sc))).
 Proof. reflexivity. Qed.
 
@@ -239,10 +239,10 @@ Lemma ga_S_some f positional named sc :
 Proof. reflexivity. Qed.
 
 Lemma fuel_O :
-  (forall p sc, pw 0 p sc = OutOfFuel) /\ (forall p sc, pr 0 p sc = OutOfFuel) /\
+  (forall k p sc, pw 0 k p sc = OutOfFuel) /\ (forall k p sc, pr 0 k p sc = OutOfFuel) /\
   (forall e sc, ew 0 e sc = OutOfFuel) /\ (forall i sc, iw 0 i sc = OutOfFuel) /\
-  (forall i sc, ir 0 i sc = OutOfFuel) /\ (forall p e sc, mt 0 p e sc = OutOfFuel) /\
-  (forall p e sc, tr 0 p e sc = OutOfFuel) /\ (forall a sc, ga 0 a sc = OutOfFuel).
+  (forall i sc, ir 0 i sc = OutOfFuel) /\ (forall k p e sc, mt 0 k p e sc = OutOfFuel) /\
+  (forall k p e sc, tr 0 k p e sc = OutOfFuel) /\ (forall a sc, ga 0 a sc = OutOfFuel).
 Proof. repeat split. Qed.
 
 End Eqns.
